@@ -443,7 +443,7 @@ def tiny2 : List Str := [
   " 18  2  1  0  0 30.0000000  0  2G07R21",
   "  24236245.742    24236247.152   127362289.44018  99243378.71651      2293.062",
   "",
-  "  21119353.719                  110982860.19619                      -1784.992",
+  "  21119353.719                   110982860.19619                     -1784.992",
   "        49.300          38.000"].map String.toList
 
 def tiny2Out : Option (List Str × List Str × Option Col × Option Col × Option Col) :=
